@@ -245,6 +245,10 @@ package lnwallet
 //@   // back yet are older than those of our dangling commitment, so they are restored first (finding F16: the last fee update
 //@   // in list order wins in evaluateHTLCView)
 //@   site call restorePendingLocalUpdates as older-local-updates-restored-first: assert called(restorePeerLocalUpdates)
+//@   // success means all three restore steps ran: the peer's view of our updates, the dangling commitment's updates (when there is one) and
+//@   // the acked-but-unsigned remote updates
+//@   ensures result == nil ==> called(restorePeerLocalUpdates) && ret(restorePeerLocalUpdates) == nil && called(restorePendingRemoteUpdates) &&
+//@           ret(restorePendingRemoteUpdates) == nil && (pendingRemoteCommit != nil ==> called(restorePendingLocalUpdates) && ret(restorePendingLocalUpdates) == nil)
 //@   bounds-safe
 //@   loop * havoc
 //@   loop 0 step incomingRemoteAddHeights[r.HtlcIndex] == pendingRemoteCommit.height
